@@ -27,11 +27,42 @@ pub struct Judged {
 
 /// Judge one text against the desugared model. `des == None`: the text holds no valid comparator.
 pub fn judge_text(text: &str, des: &Option<Desugared>, extra_basis: &[MV]) -> Judged {
+    let main = guarded(|| Range::parse(text).ok());
+    let mut out = judge_entry(text, des, extra_basis, main.clone(), "Range::parse");
+    // the other textual entry points (FromStr, serde Deserialize) yield "a parsed range" too:
+    // whenever one of them does not return the very same value, it is judged like the first
+    let main_state = main.ok().map(|r| r.map(|r| (bounds(&r).ok(), r)));
+    let others: [(&str, Result<Option<Range>, PanicInfo>); 2] = [
+        ("str::parse::<Range>", guarded(|| text.parse::<Range>().ok())),
+        ("serde Deserialize", guarded(|| serde_json::from_value::<Range>(serde_json::Value::String(text.to_string())).ok())),
+    ];
+    for (name, res) in others {
+        let state = res.clone().ok().map(|r| r.map(|r| (bounds(&r).ok(), r)));
+        let same = match (&main_state, &state) {
+            (Some(Some((b1, r1))), Some(Some((b2, r2)))) => b1 == b2 && r1 == r2,
+            (Some(None), Some(None)) => true,
+            _ => false,
+        };
+        if same {
+            continue;
+        }
+        let j = judge_entry(text, des, extra_basis, res, name);
+        if out.mismatch.is_none() {
+            if let Some(mut m) = j.mismatch {
+                m.detail = format!("[entry point {}] {}", name, m.detail);
+                out.mismatch = Some(m);
+            }
+        }
+    }
+    out
+}
+
+fn judge_entry(text: &str, des: &Option<Desugared>, extra_basis: &[MV], parsed: Result<Option<Range>, PanicInfo>, entry: &str) -> Judged {
     let mut out = Judged { mismatch: None, judged: 0, ambiguous: 0, admitted: 0, rejected: 0, parsed: false, crate_display: None };
-    let parsed = match guarded(|| Range::parse(text)) {
+    let parsed = match parsed {
         Ok(p) => p,
         Err(pi) => {
-            out.mismatch = Some(Mismatch { dir: "panic", version: None, detail: format!("Range::parse panicked: {} at {}", pi.message, pi.site) });
+            out.mismatch = Some(Mismatch { dir: "panic", version: None, detail: format!("{} panicked: {} at {}", entry, pi.message, pi.site) });
             return out;
         }
     };
@@ -39,7 +70,7 @@ pub fn judge_text(text: &str, des: &Option<Desugared>, extra_basis: &[MV]) -> Ju
     if let Some(d) = des {
         basis.extend(d.versions());
     }
-    if let Ok(r) = &parsed {
+    if let Some(r) = &parsed {
         out.parsed = true;
         out.crate_display = Some(r.to_string());
         if let Ok(b) = bounds(r) {
@@ -64,7 +95,7 @@ pub fn judge_text(text: &str, des: &Option<Desugared>, extra_basis: &[MV]) -> Ju
             out.rejected += 1;
         }
         match &parsed {
-            Ok(r) => {
+            Some(r) => {
                 let cv = v.to_crate();
                 let got = match guarded(|| (r.satisfies(&cv), cv.satisfies(r))) {
                     Ok(g) => g,
@@ -99,7 +130,7 @@ pub fn judge_text(text: &str, des: &Option<Desugared>, extra_basis: &[MV]) -> Ju
                     });
                 }
             }
-            Err(_) => {
+            None => {
                 if want && out.mismatch.is_none() {
                     out.mismatch = Some(Mismatch {
                         dir: "unparsed",
@@ -160,7 +191,7 @@ fn prims_interval(prims: &[Prim]) -> Option<Iv> {
 
 /// For attribution only: does the comparator, parsed alone, store bounds that differ from the
 /// documented ones although `satisfies` alone agrees (the prerelease gate masks it)?
-fn latent_bounds_differ(text: &str, prims: &[Prim]) -> bool {
+fn latent_bounds_differ(text: &str, prims: &[Prim], at: Option<&MV>) -> bool {
     let iv = match prims_interval(prims) {
         Some(iv) => iv,
         None => return false,
@@ -173,6 +204,11 @@ fn latent_bounds_differ(text: &str, prims: &[Prim]) -> bool {
         Ok(b) => b,
         Err(_) => return false,
     };
+    // the stored bounds must differ from the documented ones *at the version of the mismatch*:
+    // a comparator of this shape merely occurring in the range explains nothing
+    if let Some(v) = at {
+        return b.contains(v) != iv.contains(v);
+    }
     let mut basis = b.versions();
     basis.extend(iv.versions());
     probe_set(&basis).iter().any(|v| b.contains(v) != iv.contains(v))
@@ -214,7 +250,7 @@ pub fn attribute(ast: &RangeAst, sp: &Spelling, whole: &Mismatch) -> String {
         match a {
             Alt::Hyphen(lo, hi) => {
                 let one = RangeAst { alts: vec![a.clone()] };
-                if latent_bounds_differ(&one.render(&plain), &desugar_hyphen(lo, hi)) {
+                if latent_bounds_differ(&one.render(&plain), &desugar_hyphen(lo, hi), whole.version.as_ref()) {
                     return format!("compose/latent-bounds/hyphen:{} - {}", lo.normal_shape(), hi.normal_shape());
                 }
             }
@@ -222,7 +258,7 @@ pub fn attribute(ast: &RangeAst, sp: &Spelling, whole: &Mismatch) -> String {
                 for t in toks {
                     if let Tok::Cmp(op, p) = t {
                         let one = RangeAst::single(*op, p.clone());
-                        if latent_bounds_differ(&one.render(&plain), &desugar(*op, p)) {
+                        if latent_bounds_differ(&one.render(&plain), &desugar(*op, p), whole.version.as_ref()) {
                             return format!("compose/latent-bounds/{}", comparator_shape(*op, p));
                         }
                     }
